@@ -125,7 +125,7 @@ class CharacterClass(MutableSet[int]):
         obj = CharacterClass(xsd_version=self.xsd_version)
         obj.positive.update(self.positive)
         obj.negative.update(self.negative)
-        return self
+        return obj
 
     def __contains__(self, item: object) -> bool:
         if isinstance(item, str):
@@ -237,6 +237,8 @@ class CharacterClass(MutableSet[int]):
                         self.negative -= subset
             else:
                 self.positive.difference_update(part)
+                if self.negative:
+                    self.negative.update(part)
 
     def clear(self) -> None:
         self.positive.clear()
